@@ -1,4 +1,4 @@
 ORG_NAMES = ["gray8", "rgb8", "bgr8", "rgba8", "argb8", "cmyk8", "gray16", "rgb16", "rgb32f", "rgb8_planar",
              "rgba16_planar", "cmyk32f_planar", "packed_rgb565", "packed_bgr556", "packed_gray3", "packed_rgba2222",
              "ba_gray1", "ba_gray2", "ba_gray4", "ba_gray7", "ba_bgr121", "ba_rgb123", "ba_rgb565", "ba_rgb444",
-             "ba_dev5x8", "virtual_2d_locator<coordinate functor>"]
+             "ba_dev5x8", "dev5x8_planar", "dev2x16_planar", "virtual_2d_locator<coordinate functor>"]
